@@ -350,6 +350,7 @@ func checkC09(c *Ctx) {
 		}, nil)
 		c.normalisedSelection(ap)
 		c.ruleScopedDuplicate("K9.scope", ap)
+		c.ruleRefusalSurfaces("K9.refused", ap)
 	}
 	c.ruleHandledErrors("K9.errors", rm, rb)
 	c.ruleListNotShared("K10.share")
@@ -1354,5 +1355,71 @@ func (c *Ctx) ruleListNotShared(rule string) {
 		}
 		c.R.Check(bad == "", rule, name(fn), "own-entries", c.Pos(fn.Pos()), "a list stored in the database is the caller's list object or a copy with entries of its own",
 			"the list header is copied at "+bad+" and the copy is stored: both headers share one array of entries, so an append or removal through one rewrites the other's entries")
+	}
+}
+
+// ruleRefusalSurfaces (K9.refused): when a list of the database refuses the
+// entry (it is there already), Append reports that; it does not go on and
+// store the entry somewhere else. From the edge on which the list-level append
+// returned an error every return of Append carries an error, unless the edge
+// is taken only for the "wrong size for this list" refusal.
+func (c *Ctx) ruleRefusalSurfaces(rule string, ap *ssa.Function) {
+	if ap == nil {
+		return
+	}
+	n := 0
+	counts := map[string]int{}
+	for _, f := range withAnon(ap) {
+		f := f
+		instrsOf(f, func(i ssa.Instruction) {
+			call, ok := i.(*ssa.Call)
+			if !ok {
+				return
+			}
+			id := ir.CallID(call)
+			if id != sigPkg+".SignatureList.AppendBytes" && id != sigPkg+".SignatureList.AppendSignature" {
+				return
+			}
+			n++
+			key := ordinalKey(counts, name(ap)+":refusal")
+			construct := strings.TrimPrefix(key, name(ap)+":")
+			e, kept := errValue(call)
+			if !kept || e == nil {
+				c.R.Violf(rule, name(ap), construct, c.IPos(call), "a refusal by the list is reported", "the error of the list-level append is dropped")
+				return
+			}
+			// a value handed straight on (return l.AppendBytes(...)) is reported as it is
+			fail, _, tested := failureEdges(f, e)
+			if !tested {
+				c.R.Okf(rule, name(ap), construct, c.IPos(call), "the error of the list-level append is returned as it is")
+				return
+			}
+			sizeOnly := false
+			for _, ce := range ir.CondEdges(f) {
+				if ev, isEq := isErrTest(ce.Cond); isEq && sameErrValue(ev.err, e) && ev.sentinel == "ErrSigDataSize" {
+					sizeOnly = true
+				}
+			}
+			bad := ""
+			for _, fe := range fail {
+				for r, cl := range retClassesFrom(f, f.Blocks[fe.To], fe.From) {
+					if cl == "success" {
+						bad = c.IPos(r)
+					}
+				}
+			}
+			switch {
+			case bad == "":
+				c.R.Okf(rule, name(ap), construct, c.IPos(call), "after a refusal by the list every return of Append carries an error")
+			case sizeOnly:
+				c.R.Infof(rule, name(ap), construct, c.IPos(call), "not decided for this shape: the refusal is told apart by ErrSigDataSize; which refusals go on to another list is not evaluated")
+			default:
+				c.R.Violf(rule, name(ap), construct, c.IPos(call), "a refusal by the list is reported",
+					"after the list-level append returned an error Append can still return successfully at "+bad+": a duplicate that the list refused is stored in another (new) list and the caller is told it went well")
+			}
+		})
+	}
+	if n == 0 {
+		c.R.Infof(rule, name(ap), "refusal", c.Pos(ap.Pos()), "not decided for this shape: Append does not call the list-level append itself")
 	}
 }
